@@ -98,8 +98,24 @@ pub fn encode_ready(socket_type: &str, identity: Option<&[u8]>) -> Vec<u8> {
     encode_command(b"READY", &props)
 }
 
+thread_local! {
+    static IDENTITY_MODE: std::cell::Cell<u8> = const { std::cell::Cell::new(0) };
+}
+
+/// 0 = peers announce the identity the scenario gives them; 1 = every peer that would announce one announces an
+/// Identity property of length 0 instead (what libzmq peers without a routing id send); 2 = no Identity property.
+/// For scenarios whose oracle does not depend on the peers' identities: every connection must still be kept apart.
+pub fn set_identity_mode(m: u8) {
+    IDENTITY_MODE.with(|c| c.set(m));
+}
+
 /// greeting + READY of a well-behaved peer
 pub fn handshake(socket_type: &str, identity: Option<&[u8]>) -> Vec<u8> {
+    let identity = match IDENTITY_MODE.with(|c| c.get()) {
+        1 => identity.map(|_| &b""[..]),
+        2 => None,
+        _ => identity,
+    };
     let mut v = default_greeting();
     v.extend(encode_ready(socket_type, identity));
     v
